@@ -514,6 +514,7 @@ impl SubRule {
         while index < max {
             #[cfg(feature = "verif")] crate::verif::tick(112);
             *state_index = back_state;
+            let rep_start = *pos;
             if self.match_opt_states(opt_states, word, pos, forwards)? {
                 let opt_pos = *pos;
                 let mut m = true;
@@ -527,6 +528,9 @@ impl SubRule {
                 }
                 if m {
                     return Ok(true)
+                } else if opt_pos == rep_start {
+                    // a repetition that consumed nothing (`($,0)`) changes nothing however often it is repeated
+                    return Ok(false)
                 } else {
                     index += 1;
                     *pos = opt_pos;
